@@ -51,8 +51,8 @@ CLAIMED.update({
         "technique": TECH_KV,
     },
     "C18": {
-        "text": "THIN SLICE. The version-selection reductions of historical reads — one fold step each of Store::element_at (keep the row with the greatest (seq, version)), Store::seq_at_time (last transaction committed at or before the instant) and Store::schema_version_at (last environment activated at or before the coordinate) — copied verbatim each run from inside their async loops into a dependency-free crate; each step is loop-free, so its contract is a complete proof over all u64 (timestamps: ordered pool, bounded). 'Latest version at or before the coordinate' for ANY number of rows follows by the standard induction over the loop, which is not machine-checked. Everything else C18 states (what is recorded, the historical matcher, schema resolution, purge) is not decidable by contracts here.",
-        "note": "Scope: three fold steps of history.rs only; Store::elements_at's step (BTreeMap<String,_>) did not finish and is not under contract.",
+        "text": "THIN SLICE. The version-selection reductions of historical reads — one fold step each of Store::element_at (keep the row with the greatest (seq, version)), Store::seq_at_time (last transaction committed at or before the instant) and Store::schema_version_at (last environment activated at or before the coordinate) — copied verbatim each run from inside their async loops into a dependency-free crate; each step is loop-free, so its contract is a complete proof over all u64 (timestamps: ordered pool, bounded). Plus the historical row re-checks of tuple matching (K1 Context::neighbours, K2 Context::tuple_subjects as slices, K3 tuple_matches in place): a row is accepted iff the live index filter of the same function would have matched it — an archived / tombstoned version is never walked (bounded: concrete tables). 'Latest version at or before the coordinate' for ANY number of rows follows by the standard induction over the loop, which is not machine-checked. Everything else C18 states (what is recorded, the historical matcher, schema resolution, purge) is not decidable by contracts here.",
+        "note": "Scope: three fold steps of history.rs and three historical re-check kernels of kql/matching.rs; Store::elements_at's step (BTreeMap<String,_>) did not finish and is not under contract.",
         "technique": TECH_K,
     },
     "C19": {
